@@ -416,7 +416,38 @@ def r2_mask_producer(ctx, rule, lower_only=True):
         mask_ok = (U(gen.iter) == U(seg) and not gen.ifs and isinstance(e, ast.IfExp) and U(e.test) == '%s.isupper()' % ch
                    and const(e.body) == 'U' and const(e.orelse) == 'L')
         facts['mask_map'] = U(e)[:120]
-    if not mloops and not japps and not apps:
+    # the mask of the whole run computed once and cut per word: mask_list.append(run_mask[a:b]) with run_mask the U/L map of
+    # section[0][A:B]; right iff a == <word start> - A and b - a == len(word)
+    sapps = [c for c in calls_in(lp) if isinstance(c.func, ast.Attribute) and c.func.attr == 'append' and U(c.func.value) == 'mask_list'
+             and c.args and isinstance(c.args[0], ast.Subscript) and isinstance(c.args[0].slice, ast.Slice)
+             and isinstance(c.args[0].value, ast.Name)]
+    slice_form = None
+    if not mloops and not japps and not apps and len(sapps) == 1 and isinstance(seg, ast.Subscript) and isinstance(seg.slice, ast.Slice):
+        rm = single_def(fn, sapps[0].args[0].value.id)
+        if isinstance(rm, ast.Call) and U(rm.func) == "''.join" and len(rm.args) == 1 and isinstance(rm.args[0], (ast.GeneratorExp, ast.ListComp)) \
+                and len(rm.args[0].generators) == 1:
+            g = rm.args[0]
+            gen = g.generators[0]
+            ch = U(gen.target)
+            e = g.elt
+            src = gen.iter
+            if isinstance(src, ast.Subscript) and isinstance(src.slice, ast.Slice) and U(src.value) == 'section[0]' and not gen.ifs \
+                    and isinstance(e, ast.IfExp) and U(e.test) == '%s.isupper()' % ch and const(e.body) == 'U' and const(e.orelse) == 'L':
+                a0 = lin(src.slice.lower) if src.slice.lower is not None else Lin({}, 0)
+                sl = sapps[0].args[0].slice
+                lo_ = lin(sl.lower) if sl.lower is not None else Lin({}, 0)
+                hi_ = lin(sl.upper) if sl.upper is not None else None
+                ws_ = lin(seg.slice.lower)
+                facts['mask_over'] = '%s cut as %s' % (U(src), U(sapps[0].args[0]))
+                if None not in (a0, lo_, hi_, ws_):
+                    slice_form = (lo_ == ws_ - a0) and ((hi_ - lo_) == Lin({'len(%s)' % w: 1}, 0))
+    if slice_form is not None:
+        if not slice_form:
+            ok = False
+            ctx.bad(rule, qual, 'mask built from %s' % facts.get('mask_over', '?'),
+                    "the mask of a word must cover exactly the slice that is that word: a later word of a multi-word gets the "
+                    "capitalisation of another part of the run", facts, lp)
+    elif not mloops and not japps and not apps:
         ctx.unk(rule, qual, 'the construction of the capitalisation mask is not recognised', facts)
         ok = False
     elif not mask_ok or (not join_form and (len(inits) != 1 or len(apps) != 1)):
@@ -559,6 +590,17 @@ def r3_mask_insertion(ctx, rule):
             if ok:
                 ctx.ok(rule, qual, "new list: every transition copied, C<n> appended after every A<n>, written back", facts)
             return
+    # insertion addressed by value: X.insert(X.index(item) + 1, ..) finds the FIRST transition equal to item, so for a structure
+    # that repeats a transition (A4 A4) both masks land behind the first one
+    for c in calls_in(fn):
+        if isinstance(c.func, ast.Attribute) and c.func.attr == 'insert' and c.args:
+            tgt_ = U(c.func.value)
+            for x in ast.walk(c.args[0]):
+                if isinstance(x, ast.Call) and isinstance(x.func, ast.Attribute) and x.func.attr == 'index' and U(x.func.value) == tgt_:
+                    ctx.bad(rule, qual, 'mask inserted at a position found by value: %s' % U(c)[:70],
+                            "the C<n> transition must follow ITS A<n>: list.index() returns the first equal transition, so in a "
+                            "structure with a repeated A<n> the masks are not next to their words", None, c)
+                    return
     if len(cands) != 1 or len(cands[0][1]) != 1:
         ctx.unk(rule, qual, 'mask insertion loop not found')
         return
